@@ -552,7 +552,30 @@ pub fn supervisor_main(info: &CheckInfo, total_runs: u64, tier: Tier, verif_seed
                         .spawn()
                         .and_then(|mut c| wait_with_timeout(&mut c, timeout + Duration::from_secs(5)));
                     match out {
-                        Ok((st, _o, e, to)) => {
+                        Ok((st, o, e, to)) => {
+                            // a run that was killed for the wall-clock backstop under load may complete
+                            // when alone and report a violation of its own (a meter, a panic): that
+                            // counts like any other reported violation
+                            if attempt == 0 && st.success() && !to {
+                                for line in o.lines().filter(|l| l.starts_with("VIOL ")) {
+                                    let mut it = line.splitn(3, ' ');
+                                    let _ = it.next();
+                                    let _ = it.next();
+                                    if let Ok(j) = serde_json::from_str::<J>(it.next().unwrap_or("")) {
+                                        let vsig = j.get("signature").and_then(|x| x.as_str()).unwrap_or("?").to_string();
+                                        let vcase = j.get("case").cloned().unwrap_or(J::Null);
+                                        let vdetail = j.get("detail").and_then(|x| x.as_str()).unwrap_or("").to_string();
+                                        let size = vcase.to_string().len() as u64;
+                                        let en = viols.entry(vsig).or_insert((0, J::Null, String::new(), u64::MAX));
+                                        en.0 += 1;
+                                        if !vcase.is_null() && (en.1.is_null() || size < en.3) {
+                                            en.1 = vcase;
+                                            en.2 = vdetail;
+                                            en.3 = size;
+                                        }
+                                    }
+                                }
+                            }
                             let (class2, _) = death_class(&st, &e, i, to);
                             let (sig2, _) = death_signature(&st, &e, i, to);
                             // The two solo re-executions decide: both must end fatally with the same
